@@ -576,16 +576,23 @@ func TestRTMembership(t *testing.T) {
 	r := rand.New(rand.NewSource(e.Seed))
 	nSmall, maxPer, nLarge := 30, 40, 250
 	if e.Tier == "thorough" {
-		nSmall, maxPer, nLarge = 300, 300, 1200
+		nSmall, maxPer, nLarge = 300, 300, 3000
 	}
 	if e.Budget > 0 {
 		nSmall, nLarge = e.Budget, e.Budget
 	}
-	for i := 0; i < nSmall; i++ {
+	// The trace is validated line by line: its length is budgeted (a refresh over a lively table alone can take
+	// thousands of events), half for the enumerated small scenarios, half for the large random ones.
+	lines, budget := 0, 400000
+	if e.Tier == "thorough" {
+		budget = 6000000
+	}
+	for i := 0; i < nSmall && lines < budget/2; i++ {
 		sc := genRTScenario(r, true)
 		dfs := &sim.DFS{}
 		for n := 0; n < maxPer; n++ {
 			evs := runRT(t, sc, dfs)
+			lines += len(evs)
 			rec.Record(evs, rtReplay{sc, dfs.Taken()}, nontriv(evs))
 			rec.Count("dfs_runs", 1)
 			if !dfs.Next() {
@@ -594,10 +601,11 @@ func TestRTMembership(t *testing.T) {
 			}
 		}
 	}
-	for i := 0; i < nLarge; i++ {
+	for i := 0; i < nLarge && lines < budget; i++ {
 		sc := genRTScenario(r, false)
 		ch := sim.NewRandomChooser(r.Int63())
 		evs := runRT(t, sc, ch)
+		lines += len(evs)
 		rec.Record(evs, rtReplay{sc, ch.Taken()}, nontriv(evs))
 		rec.Count("random_runs", 1)
 	}
